@@ -89,4 +89,62 @@ def digitsSplitC (str : Bytes) : Option (Bytes × Bytes) := do
   let b ← from? str idx
   return (a, b)
 
+/-- `parseProposalAnswer` with the slicing checked: `none` = panic, `some none` = error return -/
+def parseAnswersAuxC (limit : Nat) (n : Nat) : Nat → Bytes → Nat → List (UInt8 × Int) → Option (Option (List (UInt8 × Int)))
+  | 0, _, _, acc => some (some acc)
+  | fuel + 1, str, i, acc =>
+    if str.length = 0 then some (some acc)
+    else if i ≥ n then some none
+    else
+      match headTailC str with
+      | none => none
+      | some (c, rest) =>
+        let set (a : UInt8) (off : Int) := acc.set i (a, off)
+        if c = 89 ∨ c = 121 ∨ c = 43 then parseAnswersAuxC limit n fuel rest (i + 1) (set ansAccept 0)
+        else if c = 78 ∨ c = 110 ∨ c = 82 ∨ c = 114 ∨ c = 45 then parseAnswersAuxC limit n fuel rest (i + 1) (set ansReject 0)
+        else if c = 76 ∨ c = 108 ∨ c = 61 ∨ c = 72 ∨ c = 104 then parseAnswersAuxC limit n fuel rest (i + 1) (set ansDefer 0)
+        else if c = 65 ∨ c = 97 ∨ c = 33 then
+          match digitsSplitC rest with
+          | none => none
+          | some (digits, rest') =>
+            if digits.isEmpty then some none
+            else
+              let off := (atoi digits).1
+              let off := if off > (limit : Int) then 0 else off
+              parseAnswersAuxC limit n fuel rest' (i + 1) (set ansAccept off)
+        else some none
+
+def parseProposalAnswerC (limit : Nat) (reply : Bytes) (n : Nat) : Option (Option (List (UInt8 × Int))) :=
+  let str := if (sb "FS ").isPrefixOf reply then reply.drop 3 else reply
+  parseAnswersAuxC limit n (str.length + 1) str 0 (List.replicate n (0, 0))
+
+/-- `parseProposal` with the slicing checked -/
+def parseProposalC (line : Bytes) : Option (Option PropFields) :=
+  match at? line 1 with
+  | none => none
+  | some code =>
+    if code = 66 ∨ code = 65 then some (some { code := code })
+    else if code = 67 ∨ code = 68 then
+      match proposalFieldsC line with
+      | none => none
+      | some none => some none
+      | some (some rest) =>
+        let parts := splitOn 32 rest
+        if parts.length < 5 then some none
+        else if parts.length > 5 then some none
+        else
+          let p0 := parts.getD 0 []
+          if p0.length < 1 ∨ p0.length > 2 then some none
+          else if p0 ≠ sb "EM" ∧ p0 ≠ sb "CM" then some none
+          else some (some { code := code, msgType := p0, mid := parts.getD 1 [],
+                            size := (atoi (parts.getD 2 [])).1, csize := (atoi (parts.getD 3 [])).1 })
+    else some none
+
+/-- `parseFW` with the slicing checked -/
+def parseFWC (line : Bytes) : Option (Option (List (Bytes × Bytes))) :=
+  match fwFieldC line with
+  | none => none
+  | some none => some none
+  | some (some rest) => some (some ((splitOn 32 rest).map fun s => addressFromString ((splitOn 124 s).headD [])))
+
 end Wl2k.B2F
